@@ -27,3 +27,6 @@ func At(point string, keys ...string) {
 		(*h)(point, keys)
 	}
 }
+
+// Enabled reports whether the hooks are compiled in.
+const Enabled = true
